@@ -6,6 +6,7 @@ events at the boundary, with virtual time and a unique token per request.
 """
 
 import gc
+from types import FrameType as _FrameType
 
 from . import common
 
@@ -129,9 +130,14 @@ class RecordingMixin:
                 resp = AbortPDU(reason=0, context=apdu)           # (the role bit is the library's business)
             elif kind == "simple":
                 resp = SimpleAckPDU(context=apdu)
+            elif kind == "unknown-ack":
+                # an acknowledgement of a service this library has no decoder for (a newer or a confused peer)
+                resp = ComplexAckPDU(choice=99, context=apdu)
+                resp.apduService = 99
+                resp.put_data(b"\x09\x01")
             else:
                 raise ValueError(kind)
-            self.log("response", token=token, behaviour=kind, invoke=apdu.apduInvokeID, peer=str(apdu.pduSource))
+            self.log("response" if kind != "unknown-ack" else "unreadable-response", token=token, behaviour=kind, invoke=apdu.apduInvokeID, peer=str(apdu.pduSource))
             self.response(resp)
         if think:
             from bacpypes.task import FunctionTask
@@ -231,9 +237,15 @@ def transaction_census():
     """live transaction state machines anywhere in the process (name independent residue check)"""
     gc.collect()
     out = []
-    for o in gc.get_objects():
+    objs = gc.get_objects()
+    for o in objs:
         try:
             if isinstance(o, SSM):
+                # a finished state machine that only lives on in the frames of a traceback (the loop variable of "invoke ID in
+                # use", kept by the exception an application holds on to) is not kept by the stack
+                if o.state in (_appservice.COMPLETED, _appservice.ABORTED) and not o.isScheduled and all(
+                        r is objs or r is out or isinstance(r, _FrameType) for r in gc.get_referrers(o)):
+                    continue
                 out.append(o)
         except ReferenceError:
             pass
